@@ -23,26 +23,36 @@ CONSTANTS
 
 \* The transaction universes.  Amounts are small; Supply = 10 goes to GR.
 TrxSingle ==
-    { [id |-> "t1", iss |-> "GR", rcv |-> "A",  amt |-> 6, data |-> FALSE],
-      [id |-> "t2", iss |-> "GR", rcv |-> "B",  amt |-> 6, data |-> FALSE],  \* conflicts with t1
-      [id |-> "t3", iss |-> "A",  rcv |-> "B",  amt |-> 4, data |-> FALSE],
-      [id |-> "t4", iss |-> "A",  rcv |-> "A",  amt |-> 3, data |-> FALSE],  \* self transfer
-      [id |-> "t5", iss |-> "B",  rcv |-> "A",  amt |-> 0, data |-> TRUE],   \* contract only
-      [id |-> "t6", iss |-> "A",  rcv |-> "B",  amt |-> 9, data |-> FALSE] } \* overdraft
+    { [id |-> "t1", iss |-> "GR", rcv |-> "A",  amt |-> 6, data |-> FALSE, nc |-> FALSE],
+      [id |-> "t2", iss |-> "GR", rcv |-> "B",  amt |-> 6, data |-> FALSE, nc |-> FALSE],  \* conflicts with t1
+      [id |-> "t3", iss |-> "A",  rcv |-> "B",  amt |-> 4, data |-> FALSE, nc |-> FALSE],
+      [id |-> "t4", iss |-> "A",  rcv |-> "A",  amt |-> 3, data |-> FALSE, nc |-> FALSE],  \* self transfer
+      [id |-> "t5", iss |-> "B",  rcv |-> "A",  amt |-> 0, data |-> TRUE, nc |-> FALSE],   \* contract only
+      [id |-> "t6", iss |-> "A",  rcv |-> "B",  amt |-> 9, data |-> FALSE, nc |-> FALSE] } \* overdraft
 
 TrxRules ==
-    { [id |-> "t1", iss |-> "GR", rcv |-> "A",  amt |-> 6, data |-> FALSE],
-      [id |-> "t7", iss |-> "N2", rcv |-> "A",  amt |-> 1, data |-> FALSE],  \* issued by a node wallet
-      [id |-> "t8", iss |-> "N1", rcv |-> "A",  amt |-> 1, data |-> FALSE],  \* issued by the genesis wallet
-      [id |-> "t9", iss |-> "A",  rcv |-> "B",  amt |-> 0, data |-> FALSE],  \* empty
-      [id |-> "t5", iss |-> "B",  rcv |-> "A",  amt |-> 0, data |-> TRUE] }
+    { [id |-> "t1", iss |-> "GR", rcv |-> "A",  amt |-> 6, data |-> FALSE, nc |-> FALSE],
+      [id |-> "t7", iss |-> "N2", rcv |-> "A",  amt |-> 1, data |-> FALSE, nc |-> FALSE],  \* issued by a node wallet
+      [id |-> "t8", iss |-> "N1", rcv |-> "A",  amt |-> 1, data |-> FALSE, nc |-> FALSE],  \* issued by the genesis wallet
+      [id |-> "t9", iss |-> "A",  rcv |-> "B",  amt |-> 0, data |-> FALSE, nc |-> FALSE],  \* empty
+      [id |-> "t5", iss |-> "B",  rcv |-> "A",  amt |-> 0, data |-> TRUE, nc |-> FALSE],
+      [id |-> "t10", iss |-> "A", rcv |-> "B",  amt |-> 1, data |-> TRUE, nc |-> TRUE] }   \* not canonical
 
 TrxTwo ==
-    { [id |-> "t1", iss |-> "GR", rcv |-> "A",  amt |-> 10, data |-> FALSE],
-      [id |-> "t2", iss |-> "GR", rcv |-> "B",  amt |-> 10, data |-> FALSE], \* the same funds again
-      [id |-> "t3", iss |-> "A",  rcv |-> "B",  amt |-> 4, data |-> FALSE] }
+    { [id |-> "t1", iss |-> "GR", rcv |-> "A",  amt |-> 10, data |-> FALSE, nc |-> FALSE],
+      [id |-> "t2", iss |-> "GR", rcv |-> "B",  amt |-> 10, data |-> FALSE, nc |-> FALSE], \* the same funds again
+      [id |-> "t3", iss |-> "A",  rcv |-> "B",  amt |-> 4, data |-> FALSE, nc |-> FALSE] }
+
+TrxDrain ==
+    { [id |-> "t1", iss |-> "GR", rcv |-> "A",  amt |-> 10, data |-> FALSE, nc |-> FALSE],  \* every wallet is drained to zero
+      [id |-> "t2", iss |-> "A",  rcv |-> "B",  amt |-> 10, data |-> FALSE, nc |-> FALSE],
+      [id |-> "t3", iss |-> "B",  rcv |-> "A",  amt |-> 4, data |-> FALSE, nc |-> FALSE],
+      [id |-> "t4", iss |-> "A",  rcv |-> "A",  amt |-> 3, data |-> FALSE, nc |-> FALSE],
+      [id |-> "t5", iss |-> "B",  rcv |-> "A",  amt |-> 0, data |-> TRUE, nc |-> FALSE],
+      [id |-> "t6", iss |-> "A",  rcv |-> "B",  amt |-> 4, data |-> FALSE, nc |-> FALSE] }
 
 TrxU == CASE Profile = "single" -> TrxSingle
+          [] Profile = "drain"  -> TrxDrain
           [] Profile = "rules"  -> TrxRules
           [] Profile = "two"    -> TrxTwo
 
